@@ -12,7 +12,7 @@ RULE = (
     "Hypothesis draws documents over the structural grammar (7 basic shapes + paths over all 20 commands, groups to "
     "depth 4, transform lists of 1-3 matrix/translate/scale/rotate[cx cy]/skewX/skewY operations on shapes, groups and "
     "use, defs, acyclic use with x/y/transform, nested svg with x/y/width/height/viewBox/preserveAspectRatio (10 "
-    "alignments x meet/slice/absent)/overflow, display:none, fill-rule, semi-transparent fills so z-order is visible), one "
+    "alignments incl. none x meet/slice/absent)/overflow, display:none, twins (a leaf repeated with identical geometry text and one paint property altered), fill-rule, semi-transparent fills so z-order is visible), one "
     "distinct palette colour per leaf. Oracle: the independent evaluator vlib.refsvg.render renders source and converted "
     "document at ~300 points (Halton points over the inflated viewBox + points offset by 2 and 4 epsilon along the "
     "normals of source and output edges); at every point farther than epsilon=0.4% of the viewBox extent from every "
